@@ -22,6 +22,7 @@ type Val struct {
 	Clo   *Closure
 	Fn    *ssa.Function
 	GoT   types.Type
+	Elems []Val // statically known elements (slices over local arrays: variadic arguments, composite literals)
 }
 
 type Closure struct {
@@ -121,6 +122,8 @@ type Gen struct {
 	notes    []string
 	ufDecl   map[string]string
 	replay   *ReplayInfo
+	arrElems map[string]map[string]Val // local array location -> constant index -> stored value
+	worldSeen map[string]bool
 }
 
 type engineError struct{ msg string }
@@ -335,6 +338,10 @@ func (g *Gen) heapSort(name string) string {
 		return s
 	}
 	if wc, ok := g.w.world[name]; ok {
+		if !g.worldSeen[name] {
+			g.worldSeen[name] = true
+			g.ensureSortNames(wc.Sort) // struct and option sorts of the table
+		}
 		return wc.Sort
 	}
 	g.fail("unknown heap or world component %q", name)
